@@ -71,8 +71,33 @@ func LoadCCache(cpath string) (*CCache, error) {
 	return c, err
 }
 
+// parseError is raised as a panic by the read functions when the data ends before the field being read
+// does or a length or count field is invalid. Unmarshal recovers it and returns it as its error.
+type parseError string
+
+func (e parseError) Error() string { return string(e) }
+
+// need checks that s more bytes are available at position *p.
+func need(b []byte, p *int, s int) {
+	if s < 0 || s > len(b)-*p {
+		panic(parseError("Invalid credential cache data. Unexpected end of data or invalid length field"))
+	}
+}
+
 // Unmarshal a byte slice of credential cache data into CCache type.
-func (c *CCache) Unmarshal(b []byte) error {
+func (c *CCache) Unmarshal(b []byte) (err error) {
+	defer func() {
+		if r := recover(); r != nil {
+			pe, ok := r.(parseError)
+			if !ok {
+				panic(r)
+			}
+			err = pe
+		}
+	}()
+	if len(b) < 2 {
+		return errors.New("Invalid credential cache data. Less than two bytes")
+	}
 	p := 0
 	//The first byte of the file always has the value 5
 	if int8(b[p]) != 5 {
@@ -119,6 +144,7 @@ func parseHeader(b []byte, p *int, c *CCache, e *binary.ByteOrder) error {
 		f := headerField{}
 		f.tag = uint16(readInt16(b, p, e))
 		f.length = uint16(readInt16(b, p, e))
+		need(b, p, int(f.length))
 		f.value = b[*p : *p+int(f.length)]
 		*p += int(f.length)
 		if !f.valid() {
@@ -174,11 +200,13 @@ func parseCredential(b []byte, p *int, c *CCache, e *binary.ByteOrder) (cred *Cr
 	cred.TicketFlags = types.NewKrbFlags()
 	cred.TicketFlags.Bytes = readBytes(b, p, 4, e)
 	l := int(readInt32(b, p, e))
+	need(b, p, l) // every address takes more than one byte
 	cred.Addresses = make([]types.HostAddress, l, l)
 	for i := range cred.Addresses {
 		cred.Addresses[i] = readAddress(b, p, e)
 	}
 	l = int(readInt32(b, p, e))
+	need(b, p, l) // every entry takes more than one byte
 	cred.AuthData = make([]types.AuthorizationDataEntry, l, l)
 	for i := range cred.AuthData {
 		cred.AuthData[i] = readAuthDataEntry(b, p, e)
@@ -285,6 +313,7 @@ func readTimestamp(b []byte, p *int, e *binary.ByteOrder) time.Time {
 
 // Read bytes representing an eight bit integer.
 func readInt8(b []byte, p *int, e *binary.ByteOrder) (i int8) {
+	need(b, p, 1)
 	buf := bytes.NewBuffer(b[*p : *p+1])
 	binary.Read(buf, *e, &i)
 	*p++
@@ -293,6 +322,7 @@ func readInt8(b []byte, p *int, e *binary.ByteOrder) (i int8) {
 
 // Read bytes representing a sixteen bit integer.
 func readInt16(b []byte, p *int, e *binary.ByteOrder) (i int16) {
+	need(b, p, 2)
 	buf := bytes.NewBuffer(b[*p : *p+2])
 	binary.Read(buf, *e, &i)
 	*p += 2
@@ -301,6 +331,7 @@ func readInt16(b []byte, p *int, e *binary.ByteOrder) (i int16) {
 
 // Read bytes representing a thirty two bit integer.
 func readInt32(b []byte, p *int, e *binary.ByteOrder) (i int32) {
+	need(b, p, 4)
 	buf := bytes.NewBuffer(b[*p : *p+4])
 	binary.Read(buf, *e, &i)
 	*p += 4
@@ -308,6 +339,7 @@ func readInt32(b []byte, p *int, e *binary.ByteOrder) (i int32) {
 }
 
 func readBytes(b []byte, p *int, s int, e *binary.ByteOrder) []byte {
+	need(b, p, s)
 	buf := bytes.NewBuffer(b[*p : *p+s])
 	r := make([]byte, s)
 	binary.Read(buf, *e, &r)
